@@ -1,4 +1,5 @@
 //! Shared core of the deterministic simulators in /verif/sim.
+pub mod alloc;
 pub mod driver;
 pub mod faultio;
 pub mod hexser;
